@@ -96,7 +96,7 @@ harness!(se_h_c14_window, c14_window, {
     let off = param(7);
     if f == F_UTF16 {
         let clen = if class == 2 { 2 } else { 1 };
-        let mut buf = [0u16; 200];
+        let mut buf = [0u16; 320];
         let p = k * clen;
         fill16(&mut buf, class, off, p);
         for i in 0..w { buf[off + p + i] = sym_u16(i as u32); }
@@ -104,7 +104,7 @@ harness!(se_h_c14_window, c14_window, {
         check16(&buf[off..off + p + w + s]);
     } else {
         let clen = match class { 0 => 1, 1 => 2, 2 => 3, _ => 4 };
-        let mut buf = [0u8; 200];
+        let mut buf = [0u8; 320];
         let p = k * clen;
         fill8(&mut buf, class, off, p);
         for i in 0..w { buf[off + p + i] = sym_u8(i as u32); }
